@@ -199,6 +199,26 @@ def run(res, tier, seed):
             open(os.path.join(cdir, "in.xml"), "w").write(c02.doc_xml(nsd))
             cases.append({"id": k, "dir": cdir, "trace": "none", "select": False})
             metas.append(("count", dn, ins, "1", order)); k += 1
+    # ATTRIBUTES as current nodes, systematically: patterns that match the attribute itself / its element / both, every level
+    P_ = lambda *st, **kw: path(list(st), **kw)
+    apats = [P_(step("attribute", T_ANY)), bin_("|", P_(step("child", T_ANY)), P_(step("attribute", T_ANY))),
+             bin_("|", P_(step("attribute", t_name("x"))), P_(step("child", t_name("b")))), bin_("|", P_(step("child", T_NODE)), P_(step("attribute", T_ANY)))]
+    adocs = [i for i, f in enumerate(flats) if sum(1 for k_ in f["kind"] if k_ == "attr") >= 2][: (2 if quick else 6)]
+    for d in adocs:
+        kinds = flats[d]["kind"]
+        attrs = [i + 1 for i, k_ in enumerate(kinds) if k_ == "attr"]
+        others = [i + 1 for i, k_ in enumerate(kinds) if k_ != "attr"]
+        for cp in apats:
+            for level in ("any", "single", "multiple"):
+                ins = {"level": level, "hasCount": True, "count": cp, "hasFrom": False, "from": pat_pool()[0]}
+                ids = sorted(attrs + rng.sample(others, min(len(others), 3)))
+                sh = list(ids); rng.shuffle(sh)
+                for order in ((ids, sh) if quick else (ids, list(reversed(ids)), sh)):
+                    cdir = os.path.join(wd, "case%d" % k); os.makedirs(cdir)
+                    open(os.path.join(cdir, "main.xsl"), "w").write(render(ins, "1", order))
+                    open(os.path.join(cdir, "in.xml"), "w").write(c02.doc_xml(docs[d]))
+                    cases.append({"id": k, "dir": cdir, "trace": "none", "select": False})
+                    metas.append(("count", d, ins, "1", order)); k += 1
     # patterns that refer to a variable: the same instruction under changing values of $t
     tv = var("t")
     P = lambda *st, **kw: path(list(st), **kw)
